@@ -98,3 +98,23 @@ Print Assumptions C08_unlocked_rearm_refuted.
 Theorem C08_source_heartbeat_discipline : heartbeat_shape_ok = true.
 Proof. vm_compute. reflexivity. Qed.
 Print Assumptions C08_source_heartbeat_discipline.
+
+(* ---------- every history ---------- *)
+From AV Require Import Proofs.LifeAllP.
+(* EVERY API-conforming history of any length (open only on a connection that is not up): the
+   observations satisfy the very predicate that is evaluated on the implementation - after each
+   close() everything is closed, unregistered, released and stopped; a failed open() leaves
+   nothing behind; a successful open() starts fresh; a reopened channel is fresh.  Invariants:
+   objects that do not belong to the current connection are closed; registered objects have
+   distinct numbers. *)
+Theorem C08_all_histories : forall T ops,
+  conforming (linit T) ops = true -> life_prop_ok (T, ops) (life_model (T, ops)) = true.
+Proof. exact life_all_histories. Qed.
+Print Assumptions C08_all_histories.
+
+Example C08_conforming_nonvacuous :
+  conforming (linit true)
+    [LOpen HSilent; LOpen HOk; LChannel; LConfirm 0; LDeliver 0; LReturn 0; LChClose 0; LChOpen 0;
+     LDeclare 0; LChannel; LBClose; Life.LClose CDrop; Life.LClose CAnswers; LOpen HReject; LOpen HOk; LChannel;
+     LDropSock; LDeclare 2; Life.LClose CSilent] = true.
+Proof. vm_compute. reflexivity. Qed.
